@@ -117,9 +117,9 @@ func (s *shrinker) shrinkOps() {
 		}
 	}
 	chunk := len(s.best.Ops) / 2
-	for chunk >= 1 {
+	for chunk >= 1 && !s.done() {
 		progress := false
-		for i := 0; i+chunk <= len(s.best.Ops); {
+		for i := 0; i+chunk <= len(s.best.Ops) && !s.done(); {
 			c := removeOps(s.best, i, i+chunk)
 			if c != nil && s.try(c) {
 				progress = true
@@ -140,7 +140,7 @@ func (s *shrinker) shrinkOps() {
 }
 
 func (s *shrinker) shrinkArgs() {
-	for i := 0; i < len(s.best.Ops); i++ {
+	for i := 0; i < len(s.best.Ops) && !s.done(); i++ {
 		op := s.best.Ops[i]
 		mod := func(f func(o *Op)) bool {
 			c := s.best.Clone()
@@ -246,7 +246,7 @@ func (s *shrinker) shrinkPlan(get func(t *Trace) **RPlan) {
 }
 
 func (s *shrinker) shrinkInput() {
-	for len(s.best.Input) > 0 {
+	for len(s.best.Input) > 0 && !s.done() {
 		n := len(s.best.Input)
 		ok := false
 		for _, k := range []int{n / 2, n - n/4, n - 1} {
@@ -300,7 +300,7 @@ func (s *shrinker) shrinkConfig() {
 
 func (s *shrinker) shrinkMulti() {
 	// drop tasks (remap the schedule)
-	for i := len(s.best.Tasks) - 1; i >= 0 && len(s.best.Tasks) > 1; i-- {
+	for i := len(s.best.Tasks) - 1; i >= 0 && len(s.best.Tasks) > 1 && !s.done(); i-- {
 		c := s.best.Clone()
 		c.Tasks = append(c.Tasks[:i:i], c.Tasks[i+1:]...)
 		if c.Sched != nil {
@@ -320,7 +320,7 @@ func (s *shrinker) shrinkMulti() {
 	}
 	// drop trailing ops of every task
 	for ti := range s.best.Tasks {
-		for len(s.best.Tasks[ti].Ops) > 1 {
+		for len(s.best.Tasks[ti].Ops) > 1 && !s.done() {
 			n := len(s.best.Tasks[ti].Ops)
 			ok := false
 			for _, k := range []int{n / 2, n - 1} {
@@ -336,15 +336,27 @@ func (s *shrinker) shrinkMulti() {
 			}
 		}
 	}
-	// simplify the schedule: drop segments
+	// simplify the schedule: drop chunks of segments (ddmin style)
 	if s.best.Sched != nil {
-		for j := len(s.best.Sched.Segs) - 1; j >= 0; j-- {
-			if j >= len(s.best.Sched.Segs) {
-				continue
+		chunk := len(s.best.Sched.Segs) / 2
+		for chunk >= 1 && !s.done() {
+			progress := false
+			for i := 0; i+chunk <= len(s.best.Sched.Segs) && !s.done(); {
+				c := s.best.Clone()
+				c.Sched.Segs = append(c.Sched.Segs[:i:i], c.Sched.Segs[i+chunk:]...)
+				if s.try(c) {
+					progress = true
+					continue
+				}
+				i += chunk
 			}
-			c := s.best.Clone()
-			c.Sched.Segs = append(c.Sched.Segs[:j:j], c.Sched.Segs[j+1:]...)
-			s.try(c)
+			if !progress || chunk == 1 {
+				chunk /= 2
+			}
 		}
 	}
+}
+
+func (s *shrinker) done() bool {
+	return s.tries >= s.maxTries || time.Now().After(s.deadline)
 }
